@@ -195,3 +195,34 @@ func propC16(w *World, r *Run) {
 	ruleLogsFromKeys(w, r, "C16.d")
 	ruleNotFoundExact(w, r, "C16.b")
 }
+
+func init() {
+	props["C12"] = propC12
+	props["C14"] = propC14
+}
+
+func propC12(w *World, r *Run) {
+	r.expl = "Decides: in Update the request's log ID term is the key of the configured-logs map, the argument of WriteOps and every counter label, and GetCheckpoint passes it to ReadOps (KEY-PASS-THROUGH); in-memory handles read and write only the entry of the log ID they were opened for, every SQL statement of a handle binds the handle's log ID to the key column and Logs() lists that column (STORAGE-KEYED); every origin->ID derivation is formats/log.ID of the origin: AsLogMap, config.NewLog (so Log.ID == ID(Log.Origin) by construction, with constructor discipline), the bastion endpoint; all five feeders, the distributor and the bastion table use {ID, Origin, Verifier} of one and the same config.Log (ID-DERIVATION, sibling agreement over the feeder registry); AsLogMap inserts only on the not-found arm of a lookup with the same key and Main aborts on its error before anything is launched (DUPLICATES-REFUSED); no cross-log mutable state exists (IMMUT + GLOBALS)."
+	r.notdec = []string{"equality of interleaved vs isolated histories as executions", "collision resistance of SHA-256 (log.ID)"}
+	r.trusted = append(tbCommon, "formats/log.ID is a function of the origin only")
+	a := analyseUpdate(w, r)
+	ruleKeyPassThrough(w, r, a, "C12.a")
+	ruleReadVerbatim(w, r, "C12.a")
+	ruleStorageKeyed(w, r, "C12.b")
+	ruleSnapshotPairing(w, r, "C12.b")
+	ruleOneStatement(w, r, "C12.b")
+	ruleIDDerivation(w, r, "C12.c")
+	ruleConfigKeying(w, r, "C12.c")
+	ruleOneWitness(w, r, "C12.d")
+	ruleGlobals(w, r, "C12.e", []string{pWitness, pBastion, pRest, pMon, pInmem, pSQL, pOmni, pConfig, pFeeder})
+	ruleImmut(w, r, "C12.e", immutCore)
+}
+
+func propC14(w *World, r *Run) {
+	r.expl = "Convergence within a bounded number of poll intervals across restarts is runtime liveness. Decides three wiring conditions without which it cannot hold: in Main the witness given to the HTTP server, wrapped by the adapter handed to every feeder goroutine, to the bastion endpoint and to the distributor is the one witness.New result, built on the caller's persistence and on AsLogMap of the same configuration value the feeder list comes from (ONE-WITNESS); every feeder name the registry can produce other than none has a case in FeedFunc, FeedFunc is only called for entries with a feeder, and Main launches one goroutine f(ctx, log, adapter, client, interval) per table entry (EVERY-FEEDER-STARTED/EXHAUSTIVE); feeder.Run and bastion.connectAndServe return only after receiving from ctx.Done() (or a local certificate error), each cycle runs FeedOnce under a deadline, and every feeder's fetchProof answers the empty proof for from.Size == 0 (NEVER-GIVES-UP)."
+	r.notdec = []string{"timing, network, restart behaviour, correctness of tile-derived proofs (C18 covers constants/plumbing only)", "that the served checkpoint actually converges"}
+	r.trusted = append(tbCommon, "errgroup, context, time.Ticker")
+	ruleOneWitness(w, r, "C14.a")
+	ruleEveryFeeder(w, r, "C14.b")
+	ruleNeverGivesUp(w, r, "C14.c")
+}
